@@ -45,6 +45,9 @@ def gen_spec(r: random.Random, flavor: str, **over) -> dict:
         # same-instant scheduling jitter: operations complete 0-3 scheduler round-trips later (asyncio's FIFO order
         # is otherwise fully determined by the program)
         "jitter": r.random() < 0.5,
+        # the callers' trace callback awaits (async flavours): every trace boundary of the library becomes a suspension
+        # point at which the other callers run
+        "trace_yields": r.random() < 0.25,
     }
     if proto == "h2":
         spec["proxy"] = r.choice([None, None, "tun", "socks"])
@@ -216,6 +219,13 @@ class Workload:
             to["read"] = 0.01
         if to:
             ext["timeout"] = to
+        if self.spec.get("trace_yields") and self.api.a:
+            yr = _rng_for(self.spec["seed"] + 11, tok.encode())
+
+            async def trace(name, info):
+                for _ in range(yr.choice([0, 1, 1, 2])):
+                    await anyio.lowlevel.checkpoint()
+            ext["trace"] = trace
         rec = {"token": tok, "beh": beh, "origin": q["origin"], "t0": self.net.now(), "pool_timeout": rec_pool_timeout}
         rec["host_wanted"] = vh or f"o{q['origin']}.test"
         self.records.append(rec)
